@@ -486,6 +486,40 @@ def scope_by_loop(prog, bi, sl, bid, st):
     return bool(pushes) and all(bb in ok_blocks for bb in pushes)
 
 
+def short_page_blocks(prog, bi, sl, bid, edges_out=None):
+    """blocks only reached when the page is shorter than the paging's size (`len < size()`, `!(len >= size())`, ..)"""
+    from mapstate import _bool_switches
+    A = prog.anchors
+    out = set()
+    for blk in bi.body.blocks:
+        if blk.cleanup or blk.idx not in bi.cfg.reach:
+            continue
+        for st in blk.stmts:
+            if st.k == "assign" and st.lhs.is_local() and st.rv.k == "bin" and st.rv.j["op"] in ("Lt", "Le", "Gt", "Ge"):
+                a, b2 = st.rv.ops
+                sa, sb = sl.of(bid, a), sl.of(bid, b2)
+                is_len = lambda x: any(c.split("::")[-1] == "len" for c in x.calls)
+                is_size = lambda x: A.cell("Paging", "size") in x.fields or any(c.endswith("Paging::size") for c in x.calls)
+                op = st.rv.j["op"]
+                if is_len(sa) and is_size(sb) and not is_size(sa):
+                    pass
+                elif is_len(sb) and is_size(sa) and not is_size(sb):
+                    op = {"Lt": "Gt", "Le": "Ge", "Gt": "Lt", "Ge": "Le"}[op]
+                else:
+                    continue
+                # op is now `len <op> size`; true for a short page (len < size) ?
+                short_when = {"Lt": True, "Le": None, "Gt": None, "Ge": False}[op]
+                if short_when is None:
+                    continue
+                for sw, tr, fa in _bool_switches(bi, st.lhs.local):
+                    tgt = tr if short_when else fa
+                    if tgt is not None:
+                        out |= bi.cfg.edge_dominated(sw, tgt)
+                        if edges_out is not None:
+                            edges_out.append((sw, tgt))
+    return out
+
+
 def full_page_gate(prog, root):
     """a closure / branch of the list handler compares the number of returned resources with the paging's size"""
     sl = Slicer(prog)
@@ -779,7 +813,7 @@ def r13_3(prog, out):
                               "backwards, so listing order is no longer creation order" % (label, how or "no counter field"))
 
 
-def emptiness_regions(prog, bi):
+def emptiness_regions(prog, bi, edges_out=None):
     """(empty, nonempty): blocks only reached when a slice / Vec of this body was found empty / non-empty, however the test
     is written: is_empty(), len() == 0, len() != 0, len() > 0, len() >= 1, `match len() { 0 => .., _ => .. }`"""
     from mapstate import _bool_switches
@@ -793,6 +827,8 @@ def emptiness_regions(prog, bi):
     def mark(sw, tgt, what):
         if tgt is not None:
             (empty if what else nonempty).update(bi.cfg.edge_dominated(sw, tgt))
+            if what and edges_out is not None:
+                edges_out.append((sw, tgt))
 
     for bb, t in bi.calls(lambda c: c.path.endswith("::is_empty")):
         if t.dest is not None and t.dest.is_local():
@@ -888,7 +924,17 @@ def r13_4(prog, out):
             if what:
                 ok = False
                 out.violation(key + ":value", bi.loc(bb), "next offset is computed from (%s) instead of offset + page length: resources are skipped or repeated" % "; ".join(what))
+        short_edges = []
+        if any(bb not in empty_blocks for (bb, _i, _s) in nones):
+            short_page_blocks(prog, bi, sl, bid, short_edges)
+        empty_edges = []
+        emptiness_regions(prog, bi, empty_edges)
+        short_ok = bool(short_edges) and takes_exactly_size(prog)
+        # blocks that can be entered without the page being empty or shorter than the size asked of take()
+        otherwise = bi.cfg.reach_avoiding_edges(0, empty_edges + short_edges) if short_ok else None
         for (bb, i, s) in nones:
+            if bb not in empty_blocks and otherwise is not None and bb not in otherwise:
+                continue        # a page shorter than take(size) asked for is the last one
             if bb not in empty_blocks:
                 ok = False
                 out.violation(key + ":none-arm", bi.loc(bb), "no next offset is produced although the page is non-empty: the walk stops early")
